@@ -27,7 +27,7 @@ RULE = (
     "ok | incompatible version | invalid password | silent | EOF | garbage | DisconnectRequest with the hello answer), "
     "each optionally with disconnect() | disconnect(force) | task cancellation | three API calls (which must be refused without writing) injected k/64 s into the call; "
     "disconnect(force T/F) at every stage; device endings EOF | reset | DisconnectRequest | garbage | ping timeout in "
-    "STARTED and CONNECTED; after every step a probe: model IDLE -> start_connection must be accepted (a TCP attempt "
+    "STARTED and CONNECTED, also with a request in flight whose answer shares the chunk with the ending; after every step a probe: model IDLE -> start_connection must be accepted (a TCP attempt "
     "starts); model != IDLE -> start_connection must raise APIConnectionError and open no socket; model != CONNECTED -> "
     "3 public API calls (rotating over all 51 recipes) must each raise APIConnectionError and write nothing; model "
     "CONNECTED -> device_info() must work. non-trivial = >=2 sessions were attempted and a close happened at a stage "
@@ -290,6 +290,29 @@ def run_case(case: dict) -> CaseResult:
                         stats["skipped"] += 1
                         continue
                     tr.feed(dev.session.encode(pb.DisconnectRequest()))
+                elif what.startswith("resp+"):
+                    # a request is in flight; its answer and the ending arrive in ONE chunk
+                    if st_ != "CONNECTED":
+                        stats["skipped"] += 1
+                        continue
+                    classes.add("ending_with_request_in_flight")
+                    tail = what[5:]
+
+                    def answer(s_, p_, tail=tail):
+                        data = s_.encode(pb.DeviceInfoResponse(name=dev.name))
+                        if tail == "discreq":
+                            data += s_.encode(pb.DisconnectRequest())
+                        elif tail == "garbage":
+                            data += b"\x07\x07\x07" if not noise else b"\x05\x00\x00"
+                        s_.send_raw(data)
+                        if tail == "eof":
+                            env.loop.sim_after(s_.dev.latency, s_.transport.feed_eof)
+                    dev.handlers[9] = answer
+                    r = await run_calls("devinfo", cli.device_info(), None)
+                    dev.handlers.pop(9, None)
+                    for name, status, val in r:
+                        if status != "ok" and not isinstance(val, APIConnectionError):
+                            viol.append(V(f"c19:request-raised:{type(val).__name__}", repr(val)[:200]))
                 elif what == "pingtimeout":
                     if st_ != "CONNECTED":
                         stats["skipped"] += 1
@@ -373,7 +396,7 @@ def _case(draw, tier):
             if r <= 3:
                 steps.append({"op": "disconnect", "force": draw(st.booleans())})
             else:
-                steps.append({"op": "dev", "what": draw(st.sampled_from(["eof", "reset", "garbage", "discreq", "pingtimeout"]))})
+                steps.append({"op": "dev", "what": draw(st.sampled_from(["eof", "reset", "garbage", "discreq", "pingtimeout", "resp+discreq", "resp+garbage", "resp+eof"]))})
             s = "IDLE"
     return {"noise": draw(st.integers(0, 3)) == 0, "keepalive": 2.0, "rot": draw(st.integers(0, 50)), "password": draw(st.sampled_from([None, "pw"])), "steps": steps}
 
@@ -408,7 +431,7 @@ def enumerated(tier):
             yield {"noise": noise, "rot": 23, "steps": [{"op": "start", "tcp": "ok", "interfere": None}, {"op": "finish", "dev": devb, "login": True, "interfere": None}] + second}
         for tcp in ("refuse", "hang"):
             yield {"noise": noise, "rot": 30, "steps": [{"op": "start", "tcp": tcp, "interfere": None}] + second}
-        for what in ("eof", "reset", "garbage", "discreq", "pingtimeout"):
+        for what in ("eof", "reset", "garbage", "discreq", "pingtimeout", "resp+discreq", "resp+garbage", "resp+eof"):
             yield {"noise": noise, "rot": 33, "steps": [second[0], {"op": "dev", "what": what}] + second}
             if what in ("eof", "reset", "garbage"):
                 for nxt in ({"op": "finish", "dev": None, "login": True, "interfere": None}, {"op": "disconnect", "force": False}, {"op": "disconnect", "force": True}):
